@@ -260,6 +260,8 @@ class _ReadSourceGenerator:
             field_type = field_type.type
 
         if issubclass(field_type, Char):
+            # The value is an uint8, but the bit reader has to see the char storage type (it is a unit of its own)
+            read_type = lookup
             field_type = field_type.cs.uint8
             lookup = "cls.cs.uint8"
 
